@@ -2,6 +2,7 @@ package utils
 
 import (
 	"runtime"
+	"sync"
 	"time"
 )
 
@@ -10,9 +11,19 @@ type Timer struct {
 	sleep  time.Duration
 	fn     func()
 	stopCh chan struct{}
+
+	// mu orders Stop with an interval's re-arm: a Stop that arrives after a
+	// tick was received but before the timer is re-armed must still end the
+	// interval.
+	mu      sync.Mutex
+	stopped bool
 }
 
 func (t *Timer) Refresh() *Timer {
+	t.mu.Lock()
+	defer t.mu.Unlock()
+	t.stopped = false
+
 	defer t.timer.Reset(t.sleep)
 
 	if !t.timer.Stop() {
@@ -60,7 +71,12 @@ func ClearTimeout(timer *Timer) {
 }
 
 func (t *Timer) Stop() {
-	if t.timer.Stop() {
+	t.mu.Lock()
+	t.stopped = true
+	active := t.timer.Stop()
+	t.mu.Unlock()
+
+	if active {
 		VerifYield("timer.stop.window", t)
 		t.stopCh <- struct{}{}
 	}
@@ -77,7 +93,13 @@ func SetInterval(fn func(), sleep time.Duration) *Timer {
 			select {
 			case <-timer.timer.C:
 				VerifYield("timer.interval.tick", timer)
+				timer.mu.Lock()
+				if timer.stopped {
+					timer.mu.Unlock()
+					return
+				}
 				timer.timer.Reset(timer.sleep)
+				timer.mu.Unlock()
 				go fn()
 			case <-timer.stopCh:
 				return
